@@ -513,6 +513,11 @@ class Engine:
             ctx = Context(self.ctx_objs[parent])
         else:  # implicit: constructed inside the parent's task, where it is the current context
             async def make() -> Any:
+                if how == "explicit_current":
+                    # what current_context() returns is passed explicitly (inside a component that is the component's context)
+                    from asphalt.core import current_context
+
+                    return Context(current_context())
                 return Context()
 
             kind, ctx = await self.call_in(parent, make)
@@ -709,6 +714,24 @@ class Engine:
                 and (t, name) not in mc.resources and (t, name) not in mc.factories:
             # inside a component a non-optional get_resource() of something missing *waits* for it (C06): ask the context itself
             api = "async"
+        if api == "resources_shortcut":
+            # the module-level get_resources(): what is present under that type right now (it never triggers a factory); inside
+            # a component it goes through the component context's delegating wrapper
+            from asphalt.core import get_resources as _get_resources
+
+            async def call_list() -> Any:
+                return dict(_get_resources(POOL[t]))
+
+            observed = await self.call_in(cid, call_list)
+            self.inc("lookup_via_resources_shortcut")
+            exp = self.model.visible(cid, t)
+            if observed[0] != "ok":
+                self.bad("scope-get_resources-raised", f"{cmd}: get_resources() raised {describe_exc(observed[1])}")
+            else:
+                got_tags = {n: self.tagname(o) for n, o in observed[1].items()}
+                if got_tags != exp:
+                    self.bad("visible[get_resources-shortcut]", f"{cmd}: the get_resources() shortcut in context {cid} returns {got_tags}, the model says {exp}")
+            return []
         sync_api = api in ("nowait", "nowait_shortcut", "inject_sync")
         self.async_yields = cmd.get("yields", 0)
         had = (t, name) in mc.resources
@@ -1056,7 +1079,7 @@ class Engine:
                 return {"op": "sibling_seq", "parent": parent, "tmp_parent": tmp_parent, "tmp_cid": self.fresh(), "cid": self.fresh(), "vid": self.fresh(),
                         "vtype": rng.randrange(Pool.N_CLASSES), "type": ft, "name": fn,
                         "how": rng.choice(["clean", "teardown_raises", "block_raises"]), "then_enter": rng.random() < 0.7}
-            return {"op": "construct", "cid": self.fresh(), "parent": parent, "how": rng.choice(["explicit", "implicit"]),
+            return {"op": "construct", "cid": self.fresh(), "parent": parent, "how": rng.choice(["explicit", "implicit", "explicit_current"]),
                     "then_enter": rng.random() < 0.7}
         if op == "enter":
             return {"op": "enter", "cid": rng.choice(constructed), "late": True, "in_component": rng.random() < 0.3}
@@ -1180,7 +1203,7 @@ def run_history(params: dict[str, Any], rng: Any) -> Engine:
 
 
 DEFAULT_WEIGHTS = {"construct": 10, "enter": 6, "leave": 4, "add_resource": 22, "add_factory": 14, "lookup": 40, "race": 0}
-ALL_APIS = ["nowait", "async", "nowait_shortcut", "async_shortcut", "inject_sync", "inject_async"]
+ALL_APIS = ["nowait", "async", "nowait_shortcut", "async_shortcut", "inject_sync", "inject_async", "resources_shortcut"]
 
 
 def default_params(rng: Any, **over: Any) -> dict[str, Any]:
